@@ -81,19 +81,32 @@ def special_worlds(ctx):
 
 
 def precision_jobs(ctx):
+    """(precision, timesteps, script, emit_step): all on the 10^-p grid."""
     jobs = []
+    grid1 = ['0.1', '0.2', '0.3', '0.4', '0.5', '0.6', '0.7', '0.8', '0.9']
+    scripts = [
+        [('update', '0.5')], [('update', '1')], [('update', '1.2')],
+        [('update', '1.8')],
+        [('run_for', '0.5', False), ('update', '0.7')],
+        [('run_for', '0.3', False), ('run_for', '0.3', False),
+         ('update', '0.3')],
+        [('update', '0.1'), ('update', '0.2'), ('update', '0.3')],
+        [('update', '0.7'), ('update', '0.2'), ('run_for', '0.1', True)],
+        [('run_for', '0.6', False), ('run_for', '0.7', True)],
+    ]
     for prec in (1, 2, 5):
-        tss = ['0.1', '0.2', '0.3'] + (['0.25'] if prec >= 2 else [])
-        combos = [(a,) for a in tss] + list(
-            itertools.combinations(tss, 2))
+        tss = list(grid1) + (['0.25', '0.05', '0.15'] if prec >= 2 else [])
+        combos = [(a,) for a in tss] + list(itertools.combinations(tss, 2))
         if not ctx.quick:
-            combos += list(itertools.combinations(tss, 3))
+            combos += list(itertools.combinations(tss[:6], 3))
+        elif prec != 1:
+            combos = [c for c in combos if len(c) == 1 or
+                      c[0] in ('0.1', '0.3', '0.25') or c[1] == '0.7']
         for combo in combos:
-            for run in ('0.5', '1', '1.2'):
-                for emit_step in (1, 0.5):
-                    for split in (False, True):
-                        jobs.append(('P', prec, combo, run, emit_step,
-                                     split))
+            for sc in scripts:
+                for emit_step in ((1, 0.5) if (not ctx.quick or prec == 1)
+                                  else (1,)):
+                    jobs.append(('P', prec, combo, sc, emit_step))
     return jobs
 
 
@@ -111,28 +124,48 @@ def run_special(job, acc):
 
 
 def precision_world(job):
-    _, prec, combo, run, emit_step, split = job
+    _, prec, combo, script, emit_step = job
     procs, topo = {}, {}
     for i, ts in enumerate(combo):
         pid = f'p{i}'
         procs[pid] = sched.probe_spec(pid, float(ts), 'always')
         topo[pid] = {'priv': (f's{i}',), 'shared': ('shared',)}
-    r = float(run)
-    if split:
-        half = round(r / 2, 1)
-        script = [('run_for', half, False),
-                  ('update', round(r - half, 5))]
-    else:
-        script = [('update', r)]
-    return {'processes': procs, 'topology': topo, 'script': script,
+    sc = [(c[0], float(c[1])) + tuple(c[2:]) for c in script]
+    return {'processes': procs, 'topology': topo, 'script': sc,
             'engine': {'global_time_precision': prec,
                        'emit_step': emit_step},
             'family': 'P', 'job': job}
 
 
+def exact_timeline(combo, script):
+    """Ideal timeline in exact decimal arithmetic (Fractions)."""
+    out = {}
+    windows, s = [], Fraction(0)
+    for c in script:
+        e = s + Fraction(c[1])
+        force = c[0] == 'update' or bool(c[2:] and c[2])
+        windows.append((s, e, force))
+        s = e
+    for i, ts in enumerate(combo):
+        f, e, seq = Fraction(ts), Fraction(0), []
+        for (s, E, force) in windows:
+            while True:
+                if e + f <= E:
+                    e = e + f
+                    seq.append(e)
+                elif force and e < E:
+                    e = E
+                    seq.append(e)
+                    break
+                else:
+                    break
+        out[i] = seq
+    return out, [w[1] for w in windows]
+
+
 def run_precision(job, acc):
     spec = precision_world(job)
-    _, prec, combo, run, emit_step, split = job
+    _, prec, combo, script, emit_step = job
     ex = worlds.execute(spec, guard_factory=sched.lasso_guard)
     p = sched.Parsed(ex)
     sched.record_states(acc, p)
@@ -153,50 +186,55 @@ def run_precision(job, acc):
         for c in p.clocks:
             if prev is not None and c['new'] < prev:
                 V('C03.monotone', 'clock-decreased',
-                  f'clock {prev} -> {c["new"]}')
+                  f'clock {prev!r} -> {c["new"]!r}')
                 break
             prev = c['new']
-        total = sum(c[1][1] for c in ex.calls)
-        # exact decimal application times
-        end = Fraction(run)
+        exact, ends = exact_timeline(combo, script)
         by_exact = {}
         for i, ts in enumerate(combo):
             pid = f'p{i}'
-            f = Fraction(ts)
-            for rec in sorted(p.invokes.get(pid, []), key=lambda r: r['n']):
-                exact = min((rec['n'] + 1) * f, end)
+            inv = sorted(p.invokes.get(pid, []), key=lambda r: r['n'])
+            if len(inv) != len(exact[i]):
+                V('C03.grid', 'interval-count-differs-from-exact-timeline',
+                  f'{pid} (ts {ts}): {len(inv)} updates, exact decimal '
+                  f'timeline has {len(exact[i])}')
+                continue
+            for rec, when in zip(inv, exact[i]):
                 ap = p.applies.get((pid, rec['n']), [])
                 for t, _ in ap:
                     if not on_grid(t):
                         V('C03.grid', 'event-off-grid',
                           f'{pid} update {rec["n"]} applied at {t!r}')
-                    by_exact.setdefault(exact, set()).add(t)
-        for exact, floats in by_exact.items():
+                    elif t != round(float(when), prec):
+                        V('C03.grid', 'event-time-wrong',
+                          f'{pid} update {rec["n"]} applied at {t!r}, '
+                          f'exact time {when}')
+                    by_exact.setdefault(when, set()).add(t)
+                if not ap:
+                    V('C03.grid', 'update-never-applied',
+                      f'{pid} update {rec["n"]} due at {when} never applied')
+        for when, floats in by_exact.items():
             if len(floats) != 1:
                 V('C03.coincide', 'coincident-events-differ',
-                  f'events at exact time {exact} carry floats '
+                  f'events at exact time {when} carry floats '
                   f'{sorted(floats)}')
-            elif float(exact) != round(next(iter(floats)), prec) and \
-                    round(float(exact), prec) != next(iter(floats)):
-                V('C03.grid', 'event-time-wrong',
-                  f'exact {exact} observed {floats}')
         rows = worlds.history_rows(ex)
         keys = [t for t, _, _ in rows]
         for t in keys:
             if not on_grid(t):
                 V('C03.grid', 'emit-key-off-grid', f'row key {t!r}')
         if len(set(keys)) != len(keys):
-            V('C03.coincide', 'duplicate-row-key',
-              f'row keys {keys}')
+            V('C03.coincide', 'duplicate-row-key', f'row keys {keys}')
         if emit_step == 1:
             want = sorted({round(float(e), prec) for e in by_exact} | {0})
-            if not split and sorted(keys) != want:
+            if sorted(keys) != want:
                 V('C03.coincide', 'rows-differ-from-batches',
                   f'row keys {keys} expected {want}')
-        if ex.engine.global_time != round(total, prec) and \
-                ex.engine.global_time != float(Fraction(run)):
-            V('C03.landing', 'did-not-land-on-end',
-              f'final clock {ex.engine.global_time!r} run {run}')
+        for (i, call, start, got), end in zip(ex.calls, ends):
+            if got != round(float(end), prec):
+                V('C03.landing', 'did-not-land-on-end',
+                  f'call {i} {call} returned at {got!r}, exact end {end}')
+                break
     acc.case(key=job, outcome=f'P:rows={len(worlds.history_rows(ex))}')
     if len(acc.samples) < 1:
         acc.sample({'family': 'P', 'job': job,
